@@ -149,8 +149,9 @@ class TransactionManager:
 
     def error_transaction(self, exc):
         self._transition_to(TransactionState.ABORTABLE_ERROR)
-        self._txn_partitions.clear()
-        self._txn_consumer_group = None
+        # NOTE: partitions and the consumer group already registered by the
+        # coordinator stay recorded till `complete_transaction`: the abort
+        # that follows has to send EndTxn for them
         self._pending_txn_partitions.clear()
         for _, _, fut in self._pending_txn_offsets:
             fut.set_exception(exc)
